@@ -6,9 +6,12 @@ import (
 	"github.com/vulcand/oxy/v2/zverif/c01"
 	"github.com/vulcand/oxy/v2/zverif/c02"
 	"github.com/vulcand/oxy/v2/zverif/c04"
+	"github.com/vulcand/oxy/v2/zverif/c14"
 )
 
 func init() {
+	parts["c14s"] = c14.RunSched
+	finders["c14s"] = c14.Find
 	parts["c02s"] = c02.RunSched
 	finders["c02s"] = c02.Find
 	parts["c01s"] = c01.RunSched
